@@ -10,7 +10,7 @@ from harness.c01_algebra import leaf, both, o_union, F
 from whoosh.matching import ArrayUnionMatcher, PreloadedUnionMatcher
 
 concrete_arrays()
-NI2 = tiered(2, 3)
+NI2 = 2
 NC3 = tiered(0, 1)
 ND2 = tiered(5, 7)
 
